@@ -1,6 +1,7 @@
 /*
  * dirdrv -- namespace operations through the public libext2fs API, with a full observation after every step.
  *
+ *   dirdrv <image> runq     as run, without the observation of the whole filesystem on opening
  *   dirdrv <image> run      read operations from stdin (one per line), execute each one, print one ndjson line
  *                           {"op":..., "r":"ok|nospace|exists|notfound|notdir|isdir|notempty|err<code>", "st":{...}}
  *   dirdrv <image> dump     print {"st":{...}} once (read-only open); used after debugfs runs
@@ -20,6 +21,18 @@
  *   setea <ino> <len>             ext2fs_xattr_set(user.big, len bytes)                      (= debugfs ea_set)
  *   fsck <flags>                  close the filesystem, run $DIRDRV_E2FSCK -<flags> <image>, reopen; "rc" = exit status
  *   sync                          ext2fs_flush
+ *   bulkdir <dir> <prefix> <n>    preparation of the link-count boundary: n subdirectories <prefix>00000.. of <dir>, each made with
+ *                                 ext2fs_new_inode + ext2fs_mkdir(fs, dir, ino, NULL) + ext2fs_link(+expand) (ext2fs_mkdir with a name looks
+ *                                 the name up linearly: 65000 of them would take minutes); the parent's count is kept by ext2fs_mkdir itself
+ *   nl <dir>                      no operation; prints the COUNT observation {"op":"nl","r":"ok","rc":0,"nl":{...}} instead of "st"
+ *   nlmkdir / nlrmdir <dir> <name>, nlfsck <flags>    as mkdir / rmdir / fsck, followed by the count observation of <dir> (nlfsck: of the
+ *                                 directory of the last nl* operation)
+ *   dirdrv <image> nl <dir>       the count observation alone (read-only open); used after debugfs runs
+ *
+ * Count observation of a directory (filesystems with ~65000 directories, where "st" is too large): stored link count, index flag,
+ * number of names whose inode is a directory whose ".." names <dir> back (sub), number of other names, names that are inconsistent
+ * (dangling, wrong file type, lookup failure: bad), in-use inodes that are directories whose ".." names <dir> (ddsub), free inodes and
+ * blocks from the bitmaps, in-use directories in all.
  * A line starting with '-' is executed without printing an observation (runs of operations).
  *
  * Releasing an inode (rm at zero, rmdir, kill) is done the way misc/fuse2fs.c remove_inode() does it with public calls:
@@ -50,6 +63,7 @@ static const char *rname(errcode_t r)
 	if (r == EXT2_ET_DIR_EXISTS || r == EXT2_ET_FILE_EXISTS) return "exists";
 	if (r == EXT2_ET_FILE_NOT_FOUND) return "notfound";
 	if (r == EXT2_ET_NO_DIRECTORY) return "notdir";
+	if (r == EMLINK) return "emlink";
 	snprintf(buf, sizeof(buf), "err%ld", (long) (r - EXT2_ET_BASE));
 	return buf;
 }
@@ -255,6 +269,57 @@ static void dump_state(void)
 		if (!ext2fs_test_block_bitmap2(fs->block_map, b)) fb++;
 	printf("],\"fi\":%lu,\"fb\":%lu,\"sfi\":%u,\"sfb\":%llu}", fi, fb, fs->super->s_free_inodes_count,
 	       (unsigned long long) ext2fs_free_blocks_count(fs->super));
+}
+
+
+/* ---------- the count observation (directories with tens of thousands of subdirectories) ---------- */
+
+struct nl_ctx { ext2_ino_t dir, dot, dotdot; unsigned long sub, other, bad; };
+
+static int nl_proc(ext2_ino_t dir, int entry, struct ext2_dir_entry *de, int offset, int blocksize, char *buf, void *priv)
+{
+	struct nl_ctx *c = priv;
+	struct ext2_inode inode;
+	ext2_ino_t pp = 0;
+	int ft;
+
+	if (entry == DIRENT_DOT_FILE) { c->dot = de->inode; return 0; }
+	if (entry == DIRENT_DOT_DOT_FILE) { c->dotdot = de->inode; return 0; }
+	if (de->inode < EXT2_FIRST_INODE(fs->super) || de->inode > fs->super->s_inodes_count ||
+	    !ext2fs_test_inode_bitmap2(fs->inode_map, de->inode) || ext2fs_read_inode(fs, de->inode, &inode)) { c->bad++; return 0; }
+	ft = ft_of_mode(inode.i_mode);
+	if (ext2fs_dirent_file_type(de) != (ext2fs_has_feature_filetype(fs->super) ? ft : 0)) { c->bad++; return 0; }
+	if (ft != EXT2_FT_DIR) { c->other++; return 0; }
+	if (ext2fs_lookup(fs, de->inode, "..", 2, NULL, &pp) || pp != c->dir || inode.i_links_count != 2) { c->bad++; return 0; }
+	c->sub++;
+	return 0;
+}
+
+static void dump_count(ext2_ino_t dir)
+{
+	struct nl_ctx c;
+	struct ext2_inode inode, ci;
+	ext2_ino_t ino, n = fs->super->s_inodes_count, first = EXT2_FIRST_INODE(fs->super), pp;
+	unsigned long fi = 0, fb = 0, ddsub = 0, ndirs = 0;
+	blk64_t b;
+	errcode_t r;
+
+	memset(&c, 0, sizeof(c)); c.dir = dir;
+	memset(&inode, 0, sizeof(inode));
+	r = ext2fs_read_inode(fs, dir, &inode);
+	if (!r) r = ext2fs_dir_iterate2(fs, dir, 0, NULL, nl_proc, &c);
+	for (ino = 1; ino <= n; ino++) {
+		if (!ext2fs_test_inode_bitmap2(fs->inode_map, ino)) { fi++; continue; }
+		if (ino != EXT2_ROOT_INO && ino < first) continue;
+		if (ext2fs_read_inode(fs, ino, &ci) || !LINUX_S_ISDIR(ci.i_mode)) continue;
+		ndirs++;
+		if (ino != dir && !ext2fs_lookup(fs, ino, "..", 2, NULL, &pp) && pp == dir) ddsub++;
+	}
+	for (b = fs->super->s_first_data_block; b < ext2fs_blocks_count(fs->super); b++)
+		if (!ext2fs_test_block_bitmap2(fs->block_map, b)) fb++;
+	printf("\"nl\":{\"dir\":%u,\"ty\":%d,\"links\":%u,\"idx\":%d,\"lsr\":\"%s\",\"dot\":%u,\"dd\":%u,\"sub\":%lu,\"other\":%lu,\"bad\":%lu,\"ddsub\":%lu,"
+	       "\"ndirs\":%lu,\"fi\":%lu,\"fb\":%lu,\"dirnlink\":%d}", dir, ft_of_mode(inode.i_mode), inode.i_links_count, !!(inode.i_flags & EXT2_INDEX_FL),
+	       rname(r), c.dot, c.dotdot, c.sub, c.other, c.bad, ddsub, ndirs, fi, fb, ext2fs_has_feature_dir_nlink(fs->super) ? 1 : 0);
 }
 
 /* ---------- operations ---------- */
@@ -488,6 +553,25 @@ static errcode_t op_setea(ext2_ino_t ino, unsigned len)
 	return r ? r : r2;
 }
 
+static errcode_t op_bulkdir(ext2_ino_t dir, const char *prefix, unsigned n)
+{
+	unsigned i;
+	char name[300];
+	ext2_ino_t ino;
+	errcode_t r;
+
+	for (i = 0; i < n; i++) {
+		snprintf(name, sizeof(name), "%.200s%05u", prefix, i);
+		r = ext2fs_new_inode(fs, dir, LINUX_S_IFDIR | 0755, 0, &ino);
+		if (r) return r;
+		r = ext2fs_mkdir(fs, dir, ino, NULL);
+		if (r) return r;
+		r = link_expand(dir, name, ino, EXT2_FT_DIR);
+		if (r) return r;
+	}
+	return 0;
+}
+
 static int op_fsck(const char *flags)
 {
 	char cmd[4096];
@@ -507,12 +591,19 @@ static int op_fsck(const char *flags)
 int main(int argc, char **argv)
 {
 	char line[2048], op[32], a2[1024], a3[64];
-	unsigned a1;
+	unsigned a1, nldir = 0;
 	errcode_t r;
 
-	if (argc < 3) { fprintf(stderr, "usage: dirdrv image run|dump\n"); return 2; }
+	if (argc < 3) { fprintf(stderr, "usage: dirdrv image run|runq|dump|nl <dir>\n"); return 2; }
 	image = argv[1];
 	add_error_table(&et_ext2_error_table);
+	if (!strcmp(argv[2], "nl") && argc > 3) {
+		r = open_fs(0);
+		if (r) { fprintf(stderr, "open: %s\n", error_message(r)); return 3; }
+		printf("{"); dump_count(atoi(argv[3])); printf("}\n");
+		ext2fs_close_free(&fs);
+		return 0;
+	}
 	if (!strcmp(argv[2], "dump")) {
 		r = open_fs(0);
 		if (r) { fprintf(stderr, "open: %s\n", error_message(r)); return 3; }
@@ -522,9 +613,11 @@ int main(int argc, char **argv)
 	}
 	r = open_fs(1);
 	if (r) { fprintf(stderr, "open: %s\n", error_message(r)); return 3; }
-	printf("{\"op\":\"open\",\"r\":\"ok\",\"rc\":0,"); dump_state(); printf("}\n"); fflush(stdout);
+	if (!strcmp(argv[2], "runq")) printf("{\"op\":\"open\",\"r\":\"ok\",\"rc\":0}\n");      /* no observation of the whole filesystem */
+	else { printf("{\"op\":\"open\",\"r\":\"ok\",\"rc\":0,"); dump_state(); printf("}\n"); }
+	fflush(stdout);
 	while (fgets(line, sizeof(line), stdin)) {
-		int n, rc = 0, quiet = 0;
+		int n, rc = 0, quiet = 0, count = 0;
 		const char *res;
 		char *lp = line;
 		a2[0] = a3[0] = 0; a1 = 0;
@@ -536,7 +629,15 @@ int main(int argc, char **argv)
 			if (sscanf(lp, "%*s %63s", a3) != 1) { fprintf(stderr, "bad fsck line\n"); return 2; }
 			rc = op_fsck(a3); r = 0;
 		}
+		else if (!strcmp(op, "nlfsck")) {
+			if (sscanf(lp, "%*s %63s", a3) != 1) { fprintf(stderr, "bad nlfsck line\n"); return 2; }
+			rc = op_fsck(a3); r = 0; count = 1;
+		}
 		else if (!strcmp(op, "sync")) r = ext2fs_flush(fs);
+		else if (!strcmp(op, "bulkdir")) r = op_bulkdir(a1, a2, atoi(a3));
+		else if (!strcmp(op, "nl")) { r = 0; nldir = a1; count = 1; }
+		else if (!strcmp(op, "nlmkdir")) { r = op_mkdir(a1, a2); nldir = a1; count = 1; }
+		else if (!strcmp(op, "nlrmdir")) { r = op_rmdir(a1, a2); nldir = a1; count = 1; }
 		else if (!strcmp(op, "mkdir")) r = op_mkdir(a1, a2);
 		else if (!strcmp(op, "create")) r = op_create(a1, a2, atoi(a3));
 		else if (!strcmp(op, "symlink")) r = op_symlink(a1, a2, atoi(a3));
@@ -555,6 +656,7 @@ int main(int argc, char **argv)
 		if (r == EXT2_ET_DIR_EXISTS + 100000) res = "notempty";
 		if (quiet) continue;
 		printf("{\"op\":\"%s\",\"r\":\"%s\",\"rc\":%d,", op, res, rc);
+		if (count) dump_count(nldir); else
 		dump_state();
 		printf("}\n");
 		fflush(stdout);
